@@ -38,11 +38,8 @@ class SymEnv:
         self.inconclusive = []
         self.reach = 0             # reachability twins that came back sat
         self.vacuous = []
-        self._reset_path()
-        self.seen_signatures = set()
-
-    def _reset_path(self):
         self.names = {}            # name -> SymReal declared on this path (inputs and stub outputs)
+        self.seen_signatures = set()
 
     # ---- inputs -----------------------------------------------------------------------------------
     def real(self, name, lo=None, hi=None, lo_strict=False, hi_strict=False):
@@ -113,7 +110,8 @@ class SymEnv:
         return z3.Implies(cond_of(a), cond_of(b))
 
     # ---- claims -----------------------------------------------------------------------------------
-    def check(self, claim, what, signature=None, pools=(), strong_neg=None, timeout_ms=None, detail=None):
+    def check(self, claim, what, signature=None, pools=(), strong_neg=None, timeout_ms=None, detail=None,
+              model_pools=()):
         """z3 validity of `claim` under path condition + pools.  Records a violation candidate on sat."""
         self.claims += 1
         if isinstance(claim, bool):
@@ -142,7 +140,7 @@ class SymEnv:
         if sig in self.seen_signatures:
             return False
         self.seen_signatures.add(sig)
-        m = self._nicer_model(claim, pools, strong_neg, m)
+        m = self._nicer_model(claim, tuple(pools) + tuple(model_pools), strong_neg, m)
         values = {}
         if m is not None:
             for n, v in self.names.items():
@@ -270,7 +268,8 @@ class ConcEnv:
     def implies(a, b):
         return (not bool(a)) or bool(b)
 
-    def check(self, claim, what, signature=None, pools=(), strong_neg=None, timeout_ms=None, detail=None):
+    def check(self, claim, what, signature=None, pools=(), strong_neg=None, timeout_ms=None, detail=None,
+              model_pools=()):
         self.claims += 1
         if bool(claim):
             return True
